@@ -14,6 +14,8 @@ import sys
 import tempfile
 from pathlib import Path
 
+import ast
+
 import common
 import oracles
 import sweep
@@ -103,6 +105,7 @@ ALTER_PROGRAMS = [
     "def f(x):\n    if False:\n        print(1)\n    else:\n        print(2)\n    if x:\n        pass\n    elif False:\n        print(3)\n    else:\n        print(4)\n",
     "def f():\n    import os\n    return os.sep\n\n\nimport json\nimport sys\nprint(sys.argv)\n",
     "def f(x):\n    if x > 3:\n        return True\n    return False\n",
+    "import sys\nimport os\nimport abc\nprint(sys.platform, os.sep, abc.ABC)\n",
 ]
 
 
@@ -123,6 +126,26 @@ def annotate_cases(ctx, n_prog):
             # the spelling of the comment is a function of the case (every accepted spelling; the canonical one elsewhere in the file or not)
             new[i] = new[i] + SPELLINGS[(i + int(sha[:4], 16)) % len(SPELLINGS)]
             cases.append((sha, i, "\n".join(new), new[i]))
+    # characters that str.splitlines() takes for line ends and the tokenizer does not, ABOVE the annotated line (page breaks between
+    # definitions, Unicode separators inside docstrings / strings / comments): every line-based look-up below them has to agree on the line table
+    headers = ["# page\x0c break\n", "\x0c\n", '"""Doc\u2028string"""\n', "s = 'a\x85b'  # c\x1cd\n", "# \u2029\n\n\n"]
+    bodies = ["def f(y):\n    return y == None\n\n\nprint(f(1))\n", "import sys\nimport os\nprint(sys.platform != '', os.sep != '')\n",
+              "def g(xs):\n    out = []\n    for x in xs:\n        out.append(x + 1)\n    return out\n\n\nprint(g([1]))\n", "def h(x):\n    if x:\n        return True\n    else:\n        return False\n\n\nprint(h(1))\n"]
+    for h in headers:
+        for b in bodies:
+            prog = h + b
+            lines = prog.split("\n")
+            for i, l in enumerate(lines):
+                if i < h.count("\n") or not l.strip() or l.strip().startswith("#"):
+                    continue
+                new = list(lines)
+                new[i] = new[i] + SPELLINGS[0]
+                src = "\n".join(new)
+                try:
+                    compile(src, "<sep>", "exec")
+                except (SyntaxError, ValueError):
+                    continue
+                cases.append((oracles.sha(prog), i, src, new[i]))
     return cases
 
 
@@ -164,6 +187,26 @@ DIRECT_RULES = ["fixes.fix_duplicate_imports", "fixes.sort_imports", "fixes.move
                 "object_oriented.remove_unused_self_cls", "fixes.simplify_assign_immediate_return", "fixes.fix_if_return", "fixes.breakout_common_code_in_ifs"]
 
 
+def toplevel_names(src):
+    """names bound by the import statements at module level"""
+    try:
+        tree = ast.parse(src)
+    except SyntaxError:
+        return set()
+    out = set()
+    for node in tree.body:
+        if isinstance(node, (ast.Import, ast.ImportFrom)):
+            out |= {a.asname or a.name.split(".")[0] for a in node.names}
+    return out
+
+
+def loaded_names(src):
+    try:
+        return {n.id for n in ast.walk(ast.parse(src)) if isinstance(n, ast.Name) and isinstance(n.ctx, ast.Load)}
+    except SyntaxError:
+        return set()
+
+
 def direct_suite(ctx):
     """the rules that edit the text directly (alter_code / _replace_nodes / text surgery), one by one, on programs where they fire, with every
     line annotated in every accepted spelling"""
@@ -195,7 +238,12 @@ def direct_suite(ctx):
                     if new[i] not in out.split("\n"):
                         s.disagreements.append({"rule": rule_name, "src": src, "line": new[i], "line_no": i, "out": out,
                                                 "what": f"{rule_name}: the line {new[i].strip()!r} carries an ignore comment but does not occur verbatim in the rule's output"})
-    s.note = ("17 programs on which the direct-editing rules fire x every line annotated x 5 accepted spellings of the ignore comment x 20 rules applied in isolation: "
+                    else:
+                        lost = sorted((toplevel_names(src) - toplevel_names(out)) & loaded_names(out)) if "import" in rule_name else []
+                        if lost:  # the opted-out line blocked one half of an edit that only makes sense as a whole
+                            s.disagreements.append({"rule": rule_name + ":half-applied", "src": src, "line": new[i], "line_no": i, "out": out,
+                                                    "what": f"{rule_name}: next to the opted-out line {new[i].strip()!r} the rule applied half of an edit: {lost} still used but no longer imported at module level"})
+    s.note = ("18 programs on which the direct-editing rules fire x every line annotated x 5 accepted spellings of the ignore comment x 20 rules applied in isolation: "
               "the annotated line occurs verbatim in the rule's output; histogram = how often each rule changed the text")
     return s
 
